@@ -28,3 +28,18 @@ VARIANTS += [
     M('C17', 'front-end-touches-output-first', E(PD, "    df = load_df(df_path)\n    v = detect_df(df, constraints_path, outpath=outpath,", "    if outpath and outpath != '-':\n        with open(outpath, 'w'):\n            pass\n    df = load_df(df_path)\n    v = detect_df(df, constraints_path, outpath=outpath,"),
       rule='C17-NOWRITE', key='detect_df_from_file'),
 ]
+
+PE = 'tdda/constraints/pd/extension.py'
+PC2 = 'tdda/constraints/pd/constraints.py'
+VARIANTS += [
+    M('C17', 'revert-fix-applicable-case', E(PE, "if (ext.lower() in ('.csv'", "if (ext in ('.csv'"), rule='C17-EXTCASE', key='applicable'),
+    M('C17', 'load_df-extension-not-lowered', E(PC2, "    exists = os.path.exists(os.path.expanduser(path))\n    stem, ext = os.path.splitext(path)\n    lcstem, ext = stem.lower(), ext.lower()\n",
+                                                "    ext = os.path.splitext(path)[1]\n"), rule='C17-EXTCASE', key='load_df'),
+    M('C17', 'metadata-extension-not-lowered', E('tdda/serial/reader.py', "    stem, ext = os.path.splitext(path)\n    lcstem, ext = stem.lower(), ext.lower()\n    if ext == '.json':",
+                                                 "    stem, ext = os.path.splitext(path)\n    if ext == '.json':"), rule='C17-EXTCASE', key='load_metadata'),
+    M('C17', 'save_df-defaults-to-csv', E(PC2, "    else:\n        raise Exception(f'Unknown output format: {fmt}')", "    else:\n        default_csv_writer(df, path, index=index)"),
+      rule='C17-EXTCASE', key='save_df'),
+    M('C17', 'refactor-ext-lowered-inline', E(PC2, "    stem, ext = os.path.splitext(path)\n    lcstem, ext = stem.lower(), ext.lower()\n\n    if ext == '.parquet':",
+                                              "    ext = os.path.splitext(path)[1].lower()\n\n    if ext == '.parquet':"), kind='refactor'),
+    M('C17', 'refactor-ext-compare-casefold', E(PE, "if (ext.lower() in ('.csv'", "if (ext.casefold() in ('.csv'"), kind='refactor'),
+]
